@@ -146,7 +146,7 @@ pub fn run(tier: &str, seed: u64, order: usize, out: &mut Out) {
                 }
             }
             for i in perm {
-                tg.add_tmpl(&g.files[*i].0, &g.files[*i].1);
+                { crate::util::note_input(&*g.files[*i].1); tg.add_tmpl(&g.files[*i].0, &g.files[*i].1) };
             }
             if pi % 3 != 0 {
                 for i in &sidx {
@@ -188,7 +188,7 @@ pub fn run(tier: &str, seed: u64, order: usize, out: &mut Out) {
             let mut sub = TmplGroup::new();
             for (i, (p, s)) in g.files.iter().enumerate() {
                 if !mf.contains(&i) {
-                    sub.add_tmpl(p, s);
+                    { crate::util::note_input(&*s); sub.add_tmpl(p, s) };
                 }
             }
             for (i, (p, s)) in g.scripts.iter().enumerate() {
@@ -204,7 +204,7 @@ pub fn run(tier: &str, seed: u64, order: usize, out: &mut Out) {
                 main.add_script(&g.scripts[*i].0, &g.scripts[*i].1);
             }
             for i in mf {
-                main.add_tmpl(&g.files[*i].0, &g.files[*i].1);
+                { crate::util::note_input(&*g.files[*i].1); main.add_tmpl(&g.files[*i].0, &g.files[*i].1) };
             }
             if !*import_first {
                 main.import_group(&sub);
